@@ -228,6 +228,7 @@ func main() {
 		nextID := 1
 		sizes := map[int]bool{}
 		crashes := 0
+		acks := 0
 		for step := 0; step < nOps; step++ {
 			x := r.Intn(100)
 			n := r.Range(1, 64)
@@ -259,6 +260,19 @@ func main() {
 				}
 			}
 			var o opJ
+			if x < 8 && q.AppendedSeq() >= 0 {
+				// the read barrier moves (a consumer acknowledged): no operation of the model - nothing about the
+				// appended messages may change, now or after a reopen
+				lo, hi := q.AcknowledgedSeq()+1, q.AppendedSeq()
+				if r.Chance(70) && hi > lo {
+					hi-- // mostly below the appended sequence
+				}
+				if hi >= lo {
+					q.SetAcknowledgedSeq(lo + int64(r.Intn(int(hi-lo)+1)))
+					acks++
+				}
+				continue
+			}
 			switch {
 			case x < 62:
 				o = opJ{K: "put", ID: nextID, Len: n}
@@ -324,10 +338,12 @@ func main() {
 			continue
 		}
 		_, gets := readAll(q, sent)
+		acked := int(q.AcknowledgedSeq()) + 1
 		q.Close()
 		_ = os.RemoveAll(dir)
-		idx := out.Case(map[string]interface{}{"kind": "history", "ops": ops, "big": big}, len(sent) >= 3 && len(sizes) >= 2 && crashes >= 1)
+		idx := out.Case(map[string]interface{}{"kind": "history", "ops": ops, "big": big, "acknowledgements": acks, "acked_at_end": acked}, len(sent) >= 3 && len(sizes) >= 2 && crashes >= 1)
 		out.Count("history")
+		out.CountN("acknowledgements", acks)
 		if big {
 			out.Count("history:page-roll-over")
 		}
@@ -341,7 +357,7 @@ func main() {
 		for _, o := range ops {
 			oc = append(oc, o.coq())
 		}
-		out.Check(idx, fmt.Sprintf("check_hist %s %s %s", vh.List(oc), vh.NatList(apps), vh.List(gets)))
+		out.Check(idx, fmt.Sprintf("check_hist_acked %d %s %s %s", acked, vh.List(oc), vh.NatList(apps), vh.List(gets)))
 	}
 
 	// ---------- overlapping appenders: A is held between alloc and copy while B appends ----------
